@@ -1,20 +1,111 @@
 /* VERIF-UNIT
 {
  "name": "allocate_group_table_placement",
- "props": ["C07"],
+ "props": [
+  "C07"
+ ],
  "level": "U",
  "tier": "wip",
  "harness": "h_allocate_group_table_placement",
- "replace": ["flexbg_offset"],
+ "replace": [
+  "flexbg_offset"
+ ],
  "loop_contracts": true,
  "unwind": 8,
  "unwind_reason": "the only loop of ext2fs_allocate_group_table (charging a flex_bg inode table group by group; subject of geometry/allocate_group_table_charge) is cut by the named anchor VERIF_INV_ALLOCATE_GROUP_TABLE_ITABLE with a trivial invariant: nothing it computes is used afterwards; 8 serves the DFCC library loops, unwinding assertions on",
- "functions": ["lib/ext2fs/alloc_tables.c:ext2fs_allocate_group_table"],
- "assumes": ["what is proved, for ONE arbitrary ghost block K with its 'allocated in bmap' bit: (1) return 0 => the group's block bitmap, inode bitmap and inode table all have a non-zero location; a table that had a location on entry keeps it (no search, no mark), a missing one gets its location set exactly once; (2) every mark applied to bmap is exactly the run that ext2fs_get_free_blocks2 reported free in the immediately preceding successful query, and the location stored is the start of that run; (3) K is marked at most once in the call and only if it was clear on entry: the tables placed in one call overlap neither each other nor anything allocated before; K is marked iff it lies in one of the tables placed by this call; (4) every table placed lies inside the filesystem; WITHOUT flex_bg (feature off or s_log_groups_per_flex == 0) inside the group's own block range, the inode table with ALL its blocks (fix of findings/C07_itable_crosses_group); (5) the error returned is the allocator's",
-             "ext2fs_get_free_blocks2 is a STUB implementing the contract proved by get_free_blocks2_window / get_free_blocks2_wrap (specs/mkfs_alloc.h: eligible candidate of the linear or cyclic window; the run contains no block allocated at that moment) over the ghost block K, whose bit is SET by the mark stubs - so a later query cannot return a run over a table placed earlier in the same call; block 0 is allocated (boot block / primary superblock, marked by ext2fs_reserve_super_and_bgd before ext2fs_allocate_tables)",
-             "flexbg_offset is replaced by an arbitrary-result contract (it only chooses where the search starts: units flexbg_offset_*); descriptor accessors record the group's three locations; group accounting (free counts, flags, checksums: geometry/allocate_group_table_charge) is stubbed away; group geometry is abstract: the group's own range [GF, GL] and the last block FL of its flex group with first data block <= GF < GL <= FL < blocks_count <= 2^48",
-             "no bigalloc (bitmap granularity 0), fs->stride == 0 (the RAID stride start offset is a symbolic 64-bit modulo: unit allocate_group_table_stride), s_log_groups_per_flex <= 30, group < group_desc_count, inode_blocks_per_group in 1 .. 2^19; bmap may be NULL (fs->block_map is used); no contract is enforced (harness CHECKs on the real function)"],
+ "functions": [
+  "lib/ext2fs/alloc_tables.c:ext2fs_allocate_group_table"
+ ],
+ "assumes": [
+  "case 1 of 2: flexible block groups NOT in use (FLEX_BG feature off, or s_log_groups_per_flex == 0 with the feature on)",
+  "what is proved, for ONE arbitrary ghost block K with its 'allocated in bmap' bit: (1) return 0 => the group's block bitmap, inode bitmap and inode table all have a non-zero location; a table that had a location on entry keeps it (no search, no mark), a missing one gets its location set exactly once; (2) every mark applied to bmap is exactly the run that ext2fs_get_free_blocks2 reported free in the immediately preceding successful query, and the location stored is the start of that run; (3) K is marked at most once in the call and only if it was clear on entry: the tables placed in one call overlap neither each other nor anything allocated before; K is marked iff it lies in one of the tables placed by this call; (4) every table placed lies inside the filesystem; WITHOUT flex_bg (feature off or s_log_groups_per_flex == 0) inside the group's own block range, the inode table with ALL its blocks (fix of findings/C07_itable_crosses_group); (5) the error returned is the allocator's",
+  "ext2fs_get_free_blocks2 is a STUB implementing the contract proved by get_free_blocks2_window / get_free_blocks2_wrap (specs/mkfs_alloc.h: eligible candidate of the linear or cyclic window; the run contains no block allocated at that moment) over the ghost block K, whose bit is SET by the mark stubs - so a later query cannot return a run over a table placed earlier in the same call; block 0 is allocated (boot block / primary superblock, marked by ext2fs_reserve_super_and_bgd before ext2fs_allocate_tables)",
+  "flexbg_offset is replaced by an arbitrary-result contract (it only chooses where the search starts: units flexbg_offset_*); descriptor accessors record the group's three locations; group accounting (free counts, flags, checksums: geometry/allocate_group_table_charge) is stubbed away; group geometry is abstract: the group's own range [GF, GL] and the last block FL of its flex group with first data block <= GF < GL <= FL < blocks_count <= 2^48",
+  "no bigalloc (bitmap granularity 0), fs->stride == 0 (the RAID stride start offset is a symbolic 64-bit modulo: unit allocate_group_table_stride), s_log_groups_per_flex <= 30, group < group_desc_count, inode_blocks_per_group in 1 .. 2^19; bmap may be NULL (fs->block_map is used); no contract is enforced (harness CHECKs on the real function)"
+ ],
  "native": false
+}
+*/
+/* VERIF-UNIT
+{
+ "name": "allocate_group_table_placement_flex",
+ "props": [
+  "C07"
+ ],
+ "level": "U",
+ "tier": "wip",
+ "harness": "h_allocate_group_table_placement_flex",
+ "replace": [
+  "flexbg_offset"
+ ],
+ "loop_contracts": true,
+ "unwind": 8,
+ "unwind_reason": "the only loop of ext2fs_allocate_group_table (charging a flex_bg inode table group by group; subject of geometry/allocate_group_table_charge) is cut by the named anchor VERIF_INV_ALLOCATE_GROUP_TABLE_ITABLE with a trivial invariant: nothing it computes is used afterwards; 8 serves the DFCC library loops, unwinding assertions on",
+ "functions": [
+  "lib/ext2fs/alloc_tables.c:ext2fs_allocate_group_table"
+ ],
+ "assumes": [
+  "case 2 of 2: flexible block groups in use (FLEX_BG feature and 1 <= s_log_groups_per_flex <= 30); other text as allocate_group_table_placement",
+  "ext2fs_get_free_blocks2 is a STUB implementing the contract proved by get_free_blocks2_window / get_free_blocks2_wrap (specs/mkfs_alloc.h: eligible candidate of the linear or cyclic window; the run contains no block allocated at that moment) over the ghost block K, whose bit is SET by the mark stubs - so a later query cannot return a run over a table placed earlier in the same call; block 0 is allocated (boot block / primary superblock, marked by ext2fs_reserve_super_and_bgd before ext2fs_allocate_tables)",
+  "flexbg_offset is replaced by an arbitrary-result contract (it only chooses where the search starts: units flexbg_offset_*); descriptor accessors record the group's three locations; group accounting (free counts, flags, checksums: geometry/allocate_group_table_charge) is stubbed away; group geometry is abstract: the group's own range [GF, GL] and the last block FL of its flex group with first data block <= GF < GL <= FL < blocks_count <= 2^48",
+  "no bigalloc (bitmap granularity 0), fs->stride == 0 (the RAID stride start offset is a symbolic 64-bit modulo: unit allocate_group_table_stride), s_log_groups_per_flex <= 30, group < group_desc_count, inode_blocks_per_group in 1 .. 2^19; bmap may be NULL (fs->block_map is used); no contract is enforced (harness CHECKs on the real function)"
+ ],
+ "native": false
+}
+*/
+/* VERIF-UNIT
+{
+ "name": "allocate_group_table_stride",
+ "props": [
+  "C07"
+ ],
+ "level": "U",
+ "tier": "wip",
+ "harness": "h_allocate_group_table_stride",
+ "replace": [
+  "flexbg_offset"
+ ],
+ "loop_contracts": true,
+ "unwind": 8,
+ "unwind_reason": "the only loop of ext2fs_allocate_group_table (charging a flex_bg inode table group by group; subject of geometry/allocate_group_table_charge) is cut by the named anchor VERIF_INV_ALLOCATE_GROUP_TABLE_ITABLE with a trivial invariant: nothing it computes is used afterwards; 8 serves the DFCC library loops, unwinding assertions on",
+ "functions": [
+  "lib/ext2fs/alloc_tables.c:ext2fs_allocate_group_table"
+ ],
+ "assumes": [
+  "case 1b: as allocate_group_table_placement (no flexible block groups) with fs->stride != 0 (mke2fs -E stride=): the bitmaps' search starts at first_free + inode_blocks_per_group + (stride * group) % (last_blk - (first_free + inode_blocks_per_group) + 1); all claims of allocate_group_table_placement hold, stride < 2^32 as stored (fs->stride is an int, s_raid_stride 16 bit)",
+  "PRECONDITION on the bitmap (checked nowhere in the code): the first free block of the group lies at least inode_blocks_per_group blocks before the group's last block. WITHOUT it the divisor last_blk - start_blk + 1 is ZERO when first_free + inode_blocks_per_group == last_blk + 1 (division by zero: SIGFPE in mke2fs; reachable with a bad-block list that leaves exactly inode_blocks_per_group free blocks at the end of a group, see findings/C07_mk_stride_div_zero and the observation unit allocate_group_table_stride_div0) or wraps when it is larger",
+  "what is proved, for ONE arbitrary ghost block K with its 'allocated in bmap' bit: (1) return 0 => the group's block bitmap, inode bitmap and inode table all have a non-zero location; a table that had a location on entry keeps it (no search, no mark), a missing one gets its location set exactly once; (2) every mark applied to bmap is exactly the run that ext2fs_get_free_blocks2 reported free in the immediately preceding successful query, and the location stored is the start of that run; (3) K is marked at most once in the call and only if it was clear on entry: the tables placed in one call overlap neither each other nor anything allocated before; K is marked iff it lies in one of the tables placed by this call; (4) every table placed lies inside the filesystem; WITHOUT flex_bg (feature off or s_log_groups_per_flex == 0) inside the group's own block range, the inode table with ALL its blocks (fix of findings/C07_itable_crosses_group); (5) the error returned is the allocator's",
+  "ext2fs_get_free_blocks2 is a STUB implementing the contract proved by get_free_blocks2_window / get_free_blocks2_wrap (specs/mkfs_alloc.h: eligible candidate of the linear or cyclic window; the run contains no block allocated at that moment) over the ghost block K, whose bit is SET by the mark stubs - so a later query cannot return a run over a table placed earlier in the same call; block 0 is allocated (boot block / primary superblock, marked by ext2fs_reserve_super_and_bgd before ext2fs_allocate_tables)",
+  "flexbg_offset is replaced by an arbitrary-result contract (it only chooses where the search starts: units flexbg_offset_*); descriptor accessors record the group's three locations; group accounting (free counts, flags, checksums: geometry/allocate_group_table_charge) is stubbed away; group geometry is abstract: the group's own range [GF, GL] and the last block FL of its flex group with first data block <= GF < GL <= FL < blocks_count <= 2^48",
+  "no bigalloc (bitmap granularity 0), fs->stride == 0 (the RAID stride start offset is a symbolic 64-bit modulo: unit allocate_group_table_stride), s_log_groups_per_flex <= 30, group < group_desc_count, inode_blocks_per_group in 1 .. 2^19; bmap may be NULL (fs->block_map is used); no contract is enforced (harness CHECKs on the real function)"
+ ],
+ "native": false,
+ "backend": "cadical"
+}
+*/
+/* VERIF-UNIT
+{
+ "name": "allocate_group_table_stride_div0",
+ "props": [
+  "C07"
+ ],
+ "level": "U",
+ "tier": "obs",
+ "harness": "h_allocate_group_table_stride_div0",
+ "replace": [
+  "flexbg_offset"
+ ],
+ "loop_contracts": true,
+ "unwind": 8,
+ "unwind_reason": "the only loop of ext2fs_allocate_group_table (charging a flex_bg inode table group by group; subject of geometry/allocate_group_table_charge) is cut by the named anchor VERIF_INV_ALLOCATE_GROUP_TABLE_ITABLE with a trivial invariant: nothing it computes is used afterwards; 8 serves the DFCC library loops, unwinding assertions on",
+ "functions": [
+  "lib/ext2fs/alloc_tables.c:ext2fs_allocate_group_table"
+ ],
+ "assumes": [
+  "as allocate_group_table_stride WITHOUT the precondition on the first free block. EXPECTED TO FAIL: division by zero in '(fs->stride * group) % (last_blk - start_blk + 1)' (lib/ext2fs/alloc_tables.c, RAID stride placement) when the group's first free block lies exactly inode_blocks_per_group blocks before the group's end; findings/C07_mk_stride_div_zero"
+ ],
+ "native": false,
+ "backend": "cadical"
 }
 */
 #include "verif.h"
@@ -22,11 +113,9 @@
 
 struct in_s {
 	unsigned char flex_bg, log_flex, null_bmap, kalloc;
-	unsigned int group, gdc, ibpg, fdb;
+	unsigned int group, gdc, ibpg, fdb, stride;
 	unsigned long long bc, GF, GL, FL, K;
 	unsigned long long loc0[3], prev_loc[3];
-	unsigned long long b[8];
-	long fail[8];
 	unsigned long long other_last[4];
 	unsigned int grp[4], other_free;
 };
@@ -39,14 +128,19 @@ static struct {
 	unsigned int calls;
 	unsigned long long ok_blk, ok_n;	/* the run reported free by the most recent successful query */
 	unsigned int ok_valid;			/* ... and not yet consumed by a mark */
-	unsigned int kalloc, kmarks, bad_mark, marks;
-	unsigned long long mark_blk[3], mark_n[3];
+	unsigned int ok_kin;			/* ... contains the ghost block K */
+	unsigned int kalloc, kmarks, bad_mark, bad_map, bad_double, marks;
+	unsigned long long last_mark_blk;
 	unsigned long long loc[3];
 	unsigned int loc_set[3], bad_loc;
 	unsigned int outside_fs, outside_group;
 	long last_fail;
+	int flex, stride;
 } G;
 static int BMAP_OBJ;
+/* answers of the allocator stub: a fresh arbitrary value per call (the number of calls depends on the path) */
+long nondet_long(void);
+unsigned long long nondet_ull(void);
 
 /* the accounting loop is not the subject here: nothing it writes is read afterwards */
 #define VERIF_INV_ALLOCATE_GROUP_TABLE_ITABLE \
@@ -69,20 +163,27 @@ dgrp_t ext2fs_group_of_blk2(ext2_filsys fs, blk64_t blk) { return IN.grp[blk & 3
 
 errcode_t ext2fs_get_free_blocks2(ext2_filsys fs, blk64_t start, blk64_t finish, int num, ext2fs_block_bitmap map, blk64_t *ret)
 {
-	unsigned int c = G.calls & 7;
 	unsigned long long n = MKFS_GFB_N(num), b0 = MKFS_GFB_B0(start, FDB, 1), f = MKFS_GFB_F(start, finish, 1);
 	int linear = MKFS_GFB_LINEAR(start, f);
 
 	G.calls++;
-	if ((void *)map != (void *)&BMAP_OBJ || num < 1) G.bad_mark = 1;
-	if (IN.fail[c]) {
-		G.last_fail = IN.fail[c];
-		return IN.fail[c];
+	if ((void *)map != (void *)&BMAP_OBJ || num < 1) G.bad_map = 1;
+	long fail = nondet_long();
+	if (fail) {
+		G.last_fail = fail;
+		return fail;
 	}
-	unsigned long long b = IN.b[c];
-	ASSUME(MKFS_GFB_ELIGIBLE(b, n, FDB, BC, 1) && MKFS_GFB_CANDIDATE(b, linear, b0, f));
+	unsigned long long b = nondet_ull();
+	ASSUME(MKFS_GFB_ELIGIBLE(b, n, FDB, BC, 1));
+	/* the window matters only for the claim "inside its own group" (no flex_bg); the flex unit uses less of the contract */
+	if (!G.flex)
+		ASSUME(MKFS_GFB_CANDIDATE(b, linear, b0, f));
 	ASSUME(b != 0);
-	ASSUME(MKFS_IMPL(IN.K >= b && IN.K - b < n, !G.kalloc));
+	/* RAID stride: the probe for the group's first free block finds it at least one inode table before the group's end */
+	if (G.stride == 1 && G.calls == 1)
+		ASSUME(b + IN.ibpg <= IN.GL);
+	G.ok_kin = IN.K >= b && IN.K - b < n;		/* does the run contain the ghost block */
+	ASSUME(MKFS_IMPL(G.ok_kin, !G.kalloc));
 	G.ok_blk = b; G.ok_n = n; G.ok_valid = 1;
 	*ret = b;
 	return 0;
@@ -93,10 +194,11 @@ static void mark(unsigned long long blk, unsigned long long n)
 	if (!G.ok_valid || blk != G.ok_blk || n != G.ok_n)
 		G.bad_mark = 1;
 	G.ok_valid = 0;
-	if (G.marks < 3) { G.mark_blk[G.marks] = blk; G.mark_n[G.marks] = n; }
+	G.last_mark_blk = blk;
 	G.marks++;
-	if (IN.K >= blk && IN.K - blk < n) {
-		if (G.kalloc) G.bad_mark = 1;
+	/* the run marked IS the run just reported (bad_mark otherwise), so "contains K" is the recorded answer */
+	if (G.ok_kin) {
+		if (G.kalloc) G.bad_double = 1;
 		G.kalloc = 1;
 		G.kmarks++;
 	}
@@ -105,13 +207,13 @@ static void mark(unsigned long long blk, unsigned long long n)
 }
 int ext2fs_mark_generic_bmap(ext2fs_generic_bitmap bmap, __u64 arg)
 {
-	if ((void *)bmap != (void *)&BMAP_OBJ) G.bad_mark = 1;
+	if ((void *)bmap != (void *)&BMAP_OBJ) G.bad_map = 1;
 	mark(arg, 1);
 	return 0;
 }
 void ext2fs_mark_block_bitmap_range2(ext2fs_block_bitmap bmap, blk64_t block, unsigned int num)
 {
-	if ((void *)bmap != (void *)&BMAP_OBJ) G.bad_mark = 1;
+	if ((void *)bmap != (void *)&BMAP_OBJ) G.bad_map = 1;
 	mark(block, num);
 }
 
@@ -120,7 +222,7 @@ blk64_t ext2fs_inode_bitmap_loc(ext2_filsys fs, dgrp_t group) { return group == 
 blk64_t ext2fs_inode_table_loc(ext2_filsys fs, dgrp_t group) { return group == IN.group ? G.loc[2] : IN.prev_loc[2]; }
 static void loc_set(unsigned int t, dgrp_t group, blk64_t blk)
 {
-	if (group != IN.group || G.marks == 0 || G.marks > 3 || blk != G.mark_blk[G.marks - 1]) G.bad_loc = 1;
+	if (group != IN.group || G.marks == 0 || blk != G.last_mark_blk) G.bad_loc = 1;
 	G.loc[t] = blk;
 	G.loc_set[t]++;
 }
@@ -141,7 +243,7 @@ static blk64_t flexbg_offset(ext2_filsys fs, dgrp_t group, blk64_t start_blk, ex
 
 #define INRUN(k, blk, n) ((k) >= (blk) && (k) - (blk) < (n))
 
-void h_allocate_group_table_placement(void)
+static void run(int want_flex, int want_stride)
 {
 	static struct struct_ext2_filsys FS;
 	static struct ext2_super_block SB;
@@ -154,7 +256,9 @@ void h_allocate_group_table_placement(void)
 	FS.super = &SB;
 	FS.group_desc_count = IN.gdc;
 	FS.inode_blocks_per_group = IN.ibpg;
-	FS.stride = 0;
+	FS.stride = want_stride ? (int)IN.stride : 0;
+	ASSUME(!want_stride || IN.stride != 0);
+	G.stride = want_stride;
 	FS.cluster_ratio_bits = 0;
 	FS.block_map = IN.null_bmap ? (ext2fs_block_bitmap)&BMAP_OBJ : 0;
 	SB.s_feature_incompat = EXT2_FEATURE_INCOMPAT_FILETYPE | (IN.flex_bg ? EXT4_FEATURE_INCOMPAT_FLEX_BG : 0);
@@ -169,11 +273,20 @@ void h_allocate_group_table_placement(void)
 	G.loc[0] = IN.loc0[0]; G.loc[1] = IN.loc0[1]; G.loc[2] = IN.loc0[2];
 	verif_k = IN.K;
 	int flex = IN.flex_bg && IN.log_flex != 0;	/* the format's "flexible block groups in use" */
+	ASSUME(flex == want_flex);
+	G.flex = want_flex;
 
-	errcode_t r = ext2fs_allocate_group_table(&FS, IN.group, IN.null_bmap ? 0 : (ext2fs_block_bitmap)&BMAP_OBJ);
+	errcode_t r = 0;
+	ext2fs_block_bitmap arg = IN.null_bmap ? 0 : (ext2fs_block_bitmap)&BMAP_OBJ;
+	if (!want_flex)
+		r = ext2fs_allocate_group_table(&FS, IN.group, arg);
+	else
+		r = ext2fs_allocate_group_table(&FS, IN.group, arg);
 
 	unsigned int missing = (IN.loc0[0] == 0) + (IN.loc0[1] == 0) + (IN.loc0[2] == 0);
-	CHECK(!G.bad_mark, "every mark is exactly the run just reported free, in the requested map; no allocated block is marked again");
+	CHECK(!G.bad_map, "only the requested map is searched and marked");
+	CHECK(!G.bad_mark, "every mark is exactly the run reported free by the immediately preceding successful search");
+	CHECK(!G.bad_double, "no allocated block is marked again");
 	CHECK(!G.bad_loc, "every location stored is the start of the run just marked, for the requested group");
 	CHECK(G.kmarks <= 1 && MKFS_IMPL(G.kmarks == 1, !kalloc0), "a block is handed out at most once and only if it was free on entry");
 	CHECK(!G.outside_fs, "every table placed lies inside the filesystem");
@@ -191,8 +304,7 @@ void h_allocate_group_table_placement(void)
 		if (IN.loc0[1] == 0 && INRUN(IN.K, G.loc[1], 1)) in_new++;
 		if (IN.loc0[2] == 0 && INRUN(IN.K, G.loc[2], IN.ibpg)) in_new++;
 		CHECK(in_new == G.kmarks, "success: a block was marked iff it lies in exactly one of the tables placed by this call (no overlap)");
-		if (missing == 3 && flex) REACH("all_three_flex");
-		if (missing == 3 && !flex) REACH("all_three_own_group");
+		if (missing == 3) REACH("all_three");
 		if (G.kmarks == 1 && IN.K == G.loc[2] + IN.ibpg - 1 && IN.ibpg > 1) REACH("k_is_last_itable_block");
 		if (missing == 0) REACH("nothing_to_do");
 	} else {
@@ -201,3 +313,8 @@ void h_allocate_group_table_placement(void)
 	}
 	REACH("end");
 }
+
+void h_allocate_group_table_placement(void) { run(0, 0); }
+void h_allocate_group_table_placement_flex(void) { run(1, 0); }
+void h_allocate_group_table_stride(void) { run(0, 1); }
+void h_allocate_group_table_stride_div0(void) { run(0, 2); }
